@@ -48,6 +48,8 @@ def caller_value(w, state, kind, pkg, sm):
         return [[L(1), L(2)], [L(3)]]
     if state == "val_nullitem":
         return [L(1), None, L(2)]
+    if state == "val_nullfirst":
+        return [None, L(1), L(2)]
     return [L(1), L(2)]
 
 
@@ -65,6 +67,8 @@ def intended_wire(w, state, kind):
         return [[W(1), W(2)], [W(3)]]
     if state == "val_nullitem":
         return [W(1), None, W(2)]
+    if state == "val_nullfirst":
+        return [None, W(1), W(2)]
     return [W(1), W(2)]
 
 
